@@ -54,3 +54,6 @@ def gen_neutron_consts():
 GENERATORS = {
     "NeutronConsts": gen_neutron_consts,
 }
+
+# properties whose checks need these generated files (a failure here only breaks those)
+SERVES = ["C03", "C04", "C16", "C17"]
